@@ -75,7 +75,12 @@ Proof.
     rewrite ceil8_plus24. fold k.
     set (d := 24 * n + l_len r :: (lab ++ p) ++ rest).
     assert (Hd1 : d = [24 * n + l_len r] ++ lab ++ p ++ rest) by (unfold d; cbn [app]; rewrite <- app_assoc; reflexivity).
-    assert (Hs4 : drop 1 d = lab ++ p ++ rest) by (rewrite Hd1; reflexivity).
+    replace (N.to_nat (3 * n + ceil8 (l_len r) + 1)) with (1 + length lab + k)%nat
+      by (rewrite HlenL; unfold n, k; lia).
+    assert (Hs4 : slice 1 (1 + length lab + k) d = lab ++ p).
+    { rewrite Hd1. replace ([24 * n + l_len r] ++ lab ++ p ++ rest) with ([24 * n + l_len r] ++ (lab ++ p) ++ rest)
+        by (rewrite <- !app_assoc; reflexivity).
+      apply slice_app_mid; [reflexivity | rewrite app_length, Hplen; lia]. }
     rewrite Hs4, HpL. fold n.
     replace (3 * n <=? 3 * n + ceil8 (l_len r)) with true by (symmetry; apply N.leb_le; lia).
     replace (8 * (3 * n) <=? 24 * n + l_len r) with true by (symmetry; apply N.leb_le; lia).
@@ -83,8 +88,6 @@ Proof.
     replace (3 * n + ceil8 (l_len r) - 3 * n) with (ceil8 (l_len r)) by lia.
     replace (N.to_nat (3 * n + ceil8 (l_len r) + 1 - ceil8 (l_len r))) with (1 + length lab)%nat
       by (rewrite HlenL; unfold n; lia).
-    replace (N.to_nat (3 * n + ceil8 (l_len r) + 1)) with (1 + length lab + k)%nat
-      by (rewrite HlenL; unfold n, k; lia).
     assert (Hs2 : slice (1 + length lab) (1 + length lab + k) d = p).
     { rewrite Hd1. replace ([24 * n + l_len r] ++ lab ++ p ++ rest) with (([24 * n + l_len r] ++ lab) ++ p ++ rest)
         by (rewrite <- !app_assoc; reflexivity).
